@@ -242,10 +242,17 @@ class FileInfo:
 
         if self.arch_len:
             self.arch_index = arch_index
-            arch_file = get_arch_filename(prefix, arch_index)
-            with open(os.path.join(self.vpk.folder, arch_file), 'ab') as file:
-                self.offset = file.seek(0, os.SEEK_END)
-                file.write(arch_data)
+            if arch_index is None:
+                # Stored in the directory file itself, after the tree. Offsets are relative to the
+                # end of the tree, and write_dirfile() rewrites that section from footer_data -
+                # appending to the file on disk would be lost on the next save.
+                self.offset = len(self.vpk.footer_data)
+                self.vpk.footer_data += arch_data
+            else:
+                arch_file = get_arch_filename(prefix, arch_index)
+                with open(os.path.join(self.vpk.folder, arch_file), 'ab') as file:
+                    self.offset = file.seek(0, os.SEEK_END)
+                    file.write(arch_data)
         else:
             # Only stored in the main index
             self.arch_index = None
